@@ -33,6 +33,7 @@ type HarnessEntry struct {
 	Stubs         map[string]*ssa.Function // entry-specific redirections
 	Float         string   // "" = E2 with relative-error bound, "mono" = monotonic anchors only
 	Doc           string
+	Recycle       int // restart solver + term context once this many float-axiom terms have accumulated (0 = default 150)
 }
 
 type Worker struct {
@@ -47,6 +48,41 @@ type Worker struct {
 	funcs        map[*ssa.Function]bool
 	stubsHit     map[string]bool
 	cats         []catInfo
+	accQ, accSat, accUnsat, accUnknown int
+	accElapsed   time.Duration
+	recycles     int
+}
+
+func (w *Worker) foldSolverStats() {
+	s := w.solver
+	w.accQ += s.queries
+	w.accSat += s.sat
+	w.accUnsat += s.unsat
+	w.accUnknown += s.unknown
+	w.accElapsed += s.elapsed
+	s.queries, s.sat, s.unsat, s.unknown, s.elapsed = 0, 0, 0, 0, 0
+}
+
+// recycle replaces the term context and the solver process by fresh ones. Definitions and the
+// instantiated float axioms are global in the solver, so they accumulate over the paths a worker has
+// explored and slow every later query down; nothing of a finished run is needed by the next one.
+func (w *Worker) recycle() error {
+	w.foldSolverStats()
+	noEps := w.tc.noEps
+	w.solver.Close()
+	w.tc = NewTermCtx()
+	w.tc.noEps = noEps
+	w.cats = nil
+	for _, f := range w.d.floatConsts {
+		w.tc.RealF(f)
+	}
+	s, err := NewSolver(w.d.solverName, w.tc, w.d.timeoutMs, "")
+	if err != nil {
+		return err
+	}
+	w.solver = s
+	w.recycles++
+	return nil
 }
 
 type catInfo struct{ t, a, b *Term }
@@ -222,6 +258,11 @@ func (d *Driver) workerLoop(w *Worker, entry *HarnessEntry, deadline time.Time) 
 			d.confirm(w, entry, r)
 		}
 
+		if lim := entry.Recycle; (lim > 0 && len(w.tc.flTerms) >= lim) || len(w.tc.flTerms) > 150 || len(w.tc.all) > 300000 {
+			if err := w.recycle(); err != nil {
+				r.inconclusive = "cannot restart solver: " + err.Error()
+			}
+		}
 		d.mu.Lock()
 		d.active--
 		if r.sched.pruned {
